@@ -333,7 +333,19 @@ func (c *Ctx) prepCall(f *frame, cc *ssa.CallCommon) (Value, []Value) {
 	if cc.IsInvoke() {
 		recv := c.get(f, cc.Value).(Iface)
 		if recv.t == nil {
-			panic(&goPanic{what: "invoke on nil interface " + cc.Method.Name(), pos: c.cp()})
+			what := "invoke on nil interface " + cc.Method.Name()
+			// a method promoted from the nil interface embedded in a harness fake:
+			// the fake does not model it (never a finding about the code under test)
+			if f.fn.Synthetic != "" && f.fn.Signature.Recv() != nil {
+				rt := f.fn.Signature.Recv().Type()
+				if p, ok := rt.(*types.Pointer); ok {
+					rt = p.Elem()
+				}
+				if n, ok := rt.(*types.Named); ok && strings.Contains(c.prog.Fset.Position(n.Obj().Pos()).Filename, "zz_verif_") {
+					what = "UNMODELLED: fake " + n.Obj().Name() + " does not implement " + cc.Method.Name()
+				}
+			}
+			panic(&goPanic{what: what, pos: c.cp()})
 		}
 		if isEngineType(recv.t) {
 			var eargs []Value
